@@ -21,6 +21,9 @@ use crate::srvgen::{build, CatalogSpec, NameSpec, RdSpec, RecSpec, ZoneSpec};
 use crate::srvrun::{hex, make_server, plain_additional, AnyServer, RrlSpec, ServerCfg};
 use crate::{ensure, fail};
 
+#[path = "c26f.rs"]
+pub mod frac;
+
 fn n(labels: &[&[u8]]) -> MName {
     MName {
         labels: labels.iter().map(|l| l.to_vec()).collect(),
@@ -38,6 +41,9 @@ fn fixed_catalog() -> CatalogSpec {
         RecSpec { owner: rel(&[b"other"]), ttl: 300, rd: RdSpec::A(3) },
         RecSpec { owner: rel(&[b"*", b"wild"]), ttl: 300, rd: RdSpec::A(4) },
         RecSpec { owner: rel(&[b"*", b"literal"]), ttl: 300, rd: RdSpec::A(5) },
+        // wildcard CNAMEs whose targets do not exist: synthesis happens, the response is NXDOMAIN
+        RecSpec { owner: rel(&[b"*", b"dangle"]), ttl: 300, rd: RdSpec::Single(mr::T_CNAME, rel(&[b"nope"])) },
+        RecSpec { owner: rel(&[b"*", b"dangle2"]), ttl: 300, rd: RdSpec::Single(mr::T_CNAME, rel(&[b"gone", b"deep"])) },
         RecSpec { owner: rel(&[b"sub"]), ttl: 300, rd: RdSpec::Single(mr::T_NS, NameSpec::Abs(vec![b"ns".to_vec(), b"elsewhere".to_vec()])) },
     ];
     CatalogSpec {
@@ -69,6 +75,8 @@ pub enum Shape {
     BadVers,
     /// NOTIMP via QTYPE AXFR (opcode QUERY)
     NotImpQtype,
+    /// NXDOMAIN reached through a wildcard-synthesised CNAME: (which wildcard, first label variant)
+    WildNx(u8, u8),
 }
 
 #[derive(Clone, Debug, Serialize, Deserialize, PartialEq, Eq, Hash)]
@@ -100,6 +108,14 @@ fn qname_of(shape: &Shape) -> MName {
                 n(&[first, b"wild", b"test"])
             } else {
                 n(&[first, b"literal", b"test"])
+            }
+        }
+        Shape::WildNx(w, v) => {
+            let first: &[u8] = if v % 2 == 0 { b"aaa" } else { b"bbb" };
+            if w % 2 == 0 {
+                n(&[first, b"dangle", b"test"])
+            } else {
+                n(&[first, b"dangle2", b"test"])
             }
         }
         Shape::LiteralStar(w) => {
@@ -409,6 +425,9 @@ pub fn oracle_pair(case: &PairCase, st: &mut Stats) -> Verdict {
             if diffs <= 1 {
                 st.nontrivial(case, || json!({"a": format!("{:?} from {sa}", case.a.shape), "b": format!("{:?} from {sb}", case.b.shape), "key_a": format!("{x:?}"), "key_b": format!("{y:?}"), "same_stream": same}));
             }
+            if same && (matches!(case.a.shape, Shape::WildNx(..)) != matches!(case.b.shape, Shape::WildNx(..))) {
+                st.class("same-stream: NXDOMAIN through a wildcard CNAME and another NXDOMAIN");
+            }
         } else {
             st.class("pair-with-exempt-request");
         }
@@ -450,6 +469,7 @@ fn req_strategy() -> impl Strategy<Value = Req> {
         3 => (0u8..2, 0u8..3).prop_map(|(w, v)| Shape::Wild(w, v)),
         1 => (0u8..2).prop_map(Shape::LiteralStar),
         2 => (0u8..2).prop_map(Shape::NxDomain),
+        2 => (0u8..2, 0u8..2).prop_map(|(w, v)| Shape::WildNx(w, v)),
         2 => (0u8..2).prop_map(Shape::Refused),
         1 => Just(Shape::ServFail),
         1 => Just(Shape::FormErr),
@@ -539,6 +559,8 @@ pub fn run(ctx: &Ctx, report: &mut Report) {
             .into();
         report.assumptions.push("hook verif_rrl_shift_time simulates elapsed time; real time also passes: histories taking > 0.5 s are retried (sub-second remainders are kept by the limiter, so < 1 s of real time cannot add a refill)".into());
         run_prop(ctx, report, PropSpec { name: "token-bucket", cases: ctx.tier.pick(6_000, 200_000), max_shrink_iters: 400 }, bucket_case, oracle_bucket);
+        report.assumptions.push("sub-check token-bucket-subsecond: hook verif_rrl_shift_time_millis, gaps in multiples of 250 ms; only histories that ran in < 200 ms of real time are judged (then real and reference elapsed times have the same whole seconds at every step), slower ones are repeated, finally discarded".into());
+        run_prop(ctx, report, PropSpec { name: "token-bucket-subsecond", cases: ctx.tier.pick(8_000, 200_000), max_shrink_iters: 400 }, frac::frac_case, frac::oracle_frac);
     }
 }
 
@@ -546,6 +568,8 @@ pub fn replay(check: &str, case: &serde_json::Value) -> Verdict {
     use crate::fw::replay_case;
     if check == "stream-pairs" {
         replay_case::<PairCase, _>(case, oracle_pair)
+    } else if check == "token-bucket-subsecond" {
+        replay_case::<frac::FracCase, _>(case, frac::oracle_frac)
     } else {
         replay_case::<BucketCase, _>(case, oracle_bucket)
     }
